@@ -301,10 +301,69 @@ def nodeLabel (cfg : Cfg) (s : State) (v : Nat) : Int :=
   | some k => 2 * (k : Int)
   | none => let t := s.nodeTypes.getD v 0; if t = -1 then -1 else 2 * t + 1
 
-/-- the mask the rules prescribe is `legalMask`; the observation's copied fields are the state's -/
+/-- the documented observation: relabelled node types, the graph, the agents' positions, the step count and the
+mask the RULES prescribe (`legalMask`, recomputed from `legal`; not the mask cached in the state) -/
 def observe (cfg : Cfg) (s : State) : Obs :=
   { nodeTypes := (List.range cfg.numNodes).map (nodeLabel cfg s), adj := s.adj, positions := s.positions,
-    stepCount := s.stepCount, actionMask := s.actionMask }
+    stepCount := s.stepCount, actionMask := legalMask cfg s }
+
+/-- `MMST.reset` after the generator has produced `s`: `(state, restart(_state_to_observation(state)))` -/
+def reset (cfg : Cfg) (s : State) : State × TimeStep Obs := (s, restart (observeL1 cfg s))
+
+/-! ### routes are walks (audit r1, entry 1) -/
+
+/-- entry `t` of the route (`connected_nodes`) of agent `i`, -1 = not filled / outside -/
+def routeAt (s : State) (i t : Nat) : Int := (s.connectedNodes.getD i []).getD t (-1)
+
+/-- `RouteWalk` for agent `i` with `m = position_index[i]` -/
+def RouteWalkAt (cfg : Cfg) (s : State) (i : Nat) : Prop :=
+  (s.connectedNodes.getD i []).length = cfg.timeLimit ∧
+  0 ≤ s.positionIndex.getD i 0 ∧ s.positionIndex.getD i 0 ≤ s.stepCount ∧
+  s.positionIndex.getD i 0 ≤ (cfg.timeLimit : Int) ∧
+  (∀ t, t < cfg.timeLimit → (t : Int) ≤ s.positionIndex.getD i 0 →
+    0 ≤ routeAt s i t ∧ routeAt s i t < (cfg.numNodes : Int)) ∧
+  (∀ t, t < cfg.timeLimit → s.positionIndex.getD i 0 < (t : Int) → routeAt s i t = -1) ∧
+  (∀ t, t < cfg.timeLimit → t + 1 < cfg.timeLimit → (t : Int) + 1 ≤ s.positionIndex.getD i 0 →
+    hasEdge s (routeAt s i t).toNat (routeAt s i (t + 1)).toNat) ∧
+  (s.positionIndex.getD i 0 < (cfg.timeLimit : Int) →
+    routeAt s i (s.positionIndex.getD i 0).toNat = s.positions.getD i 0) ∧
+  (s.positionIndex.getD i 0 = (cfg.timeLimit : Int) →
+    hasEdge s (routeAt s i (cfg.timeLimit - 1)).toNat (s.positions.getD i 0).toNat)
+instance (cfg : Cfg) (s : State) (i : Nat) : Decidable (RouteWalkAt cfg s i) := by
+  unfold RouteWalkAt; infer_instance
+
+/-- the route of every agent is a walk in the graph that ends where the agent stands: with `r = connected_nodes[i]`
+(length `time_limit`) and `m = position_index[i]` (`0 ≤ m ≤ step_count`): entries `0 … m` are node indices, the
+entries after `m` are -1 (filled prefix of length `m + 1`), consecutive entries are joined by an edge of the
+adjacency matrix, and `r[m]` is the agent's position.  When an agent has moved in every one of the `time_limit`
+steps, `m = time_limit` and the write of the last node was dropped (out of bounds): then the whole row is filled
+and the last entry is joined by an edge to the position. -/
+def RouteWalk (cfg : Cfg) (s : State) : Prop :=
+  ∀ i, i < cfg.numAgents → RouteWalkAt cfg s i
+instance (cfg : Cfg) (s : State) : Decidable (RouteWalk cfg s) := by unfold RouteWalk; infer_instance
+
+/-- C06, strengthened: hard constraint + bookkeeping + the routes are walks -/
+def Feasible' (cfg : Cfg) (s : State) : Prop := Feasible cfg s ∧ RouteWalk cfg s
+instance (cfg : Cfg) (s : State) : Decidable (Feasible' cfg s) := by unfold Feasible'; infer_instance
+
+/-- complete feasible solution, strengthened: every agent has all its nodes on its route, which is a walk -/
+def IsSolution' (cfg : Cfg) (s : State) : Prop :=
+  Feasible' cfg s ∧ ∀ i, i < cfg.numAgents → agentDone s i
+instance (cfg : Cfg) (s : State) : Decidable (IsSolution' cfg s) := by unfold IsSolution'; infer_instance
+
+/-- node `v` is on the route of agent `i` -/
+def onRoute (s : State) (i v : Nat) : Prop := (v : Int) ∈ s.connectedNodes.getD i []
+instance (s : State) (i v : Nat) : Decidable (onRoute s i v) := by unfold onRoute; infer_instance
+
+/-- `u` and `v` are neighbours in the (undirected) graph -/
+def Linked (s : State) (u v : Nat) : Prop := hasEdge s u v ∨ hasEdge s v u
+instance (s : State) (u v : Nat) : Decidable (Linked s u v) := by unfold Linked; infer_instance
+
+/-- `u` and `v` are joined by a path of the graph all of whose nodes (end points included) satisfy `P`:
+reachability in the subgraph induced by `P` -/
+inductive ReachIn (s : State) (P : Nat → Prop) : Nat → Nat → Prop
+  | refl (u : Nat) : P u → ReachIn s P u u
+  | tail {u v w : Nat} : ReachIn s P u v → Linked s v w → P w → ReachIn s P u w
 
 /-! ### per-agent outcome of an action by the rules (used by the C05 judge) -/
 
